@@ -56,17 +56,31 @@ func init() {
 			for i := 0; i < nC; i++ {
 				carr = append(carr, c04Arrivals[vs.Choose("carr", len(c04Arrivals))])
 			}
+			// a proxy that polls again under a session id whose earlier poll is still pending (a restarted
+			// or misbehaving proxy; nothing in the protocol prevents it)
+			sameSid, secondNAT := false, NATUnrestricted
+			if x.Cfg["dup"] == "1" && nP >= 2 {
+				sameSid = vs.Choose("samesid", 2) == 1
+				secondNAT = []string{NATUnrestricted, NATRestricted}[vs.Choose("nat2", 2)]
+			}
 			w := newWorld()
 			x.User = w
-			for _, p := range pcs {
-				w.addProxy(NATUnrestricted, "standalone", 0, p.arr, p.beh)
+			for i, p := range pcs {
+				nat := NATUnrestricted
+				if i == 1 {
+					nat = secondNAT
+				}
+				pr := w.addProxy(nat, "standalone", 0, p.arr, p.beh)
+				if i == 1 && sameSid {
+					pr.sid = w.proxies[0].sid
+				}
 			}
 			for _, a := range carr {
 				w.addClient("unknown", "", a, viaIPC)
 			}
 			var sb strings.Builder
 			for _, p := range w.proxies {
-				fmt.Fprintf(&sb, "P%d(arr=%v,%s) ", p.idx, p.arrive, ansBehName[p.beh])
+				fmt.Fprintf(&sb, "P%d(%s,arr=%v,%s,%s) ", p.idx, p.sid, p.arrive, p.natWire, ansBehName[p.beh])
 			}
 			for _, c := range w.clients {
 				fmt.Fprintf(&sb, "C%d(arr=%v) ", c.idx, c.arrive)
